@@ -867,6 +867,14 @@ class Interp:
             return BoolV("const", ({x.s for x in a.items} == {x.s for x in b.items}) == (sym == "=="))
         if isinstance(a, StrV) and isinstance(b, StrV) and sym in ("==", "!="):
             return BoolV("const", (a.s == b.s) == (sym == "=="))
+        # need.intersection(table) ==/!= need  is the predicate "table has all of need"
+        if sym in ("==", "!="):
+            for x, y in ((a, b), (b, a)):
+                if isinstance(y, SetV) and isinstance(x, Num) and all(isinstance(i, StrV) for i in y.items):
+                    at = self.single_atom(x.nf)
+                    if at is not None and at[0] == "fn" and at[1] == "intersection" and len(at[2]) == 2 and nf.unkey(at[2][0]) == self.to_nf(y):
+                        t = BoolV("opaque", "has_all(" + nf.show(nf.unkey(at[2][1]), 120) + "; " + ", ".join(sorted(repr(i.s) for i in y.items)) + ")")
+                        return t if sym == "==" else BoolV("not", t)
         an, bn = self.to_nf(a), self.to_nf(b)
         if nf.is_const(an) and nf.is_const(bn) and isinstance(a, Num) and isinstance(b, Num):
             x, y = nf.cval(an), nf.cval(bn)
@@ -1401,6 +1409,13 @@ class Interp:
                 return recv.items[args[0].s]
             if meth in ("keys", "items", "values"):
                 return recv
+        if isinstance(recv, SetV) and meth == "issubset" and len(args) == 1 and all(isinstance(x, StrV) for x in recv.items):
+            other = args[0]
+            if isinstance(other, DictV) and not other.fallback:
+                return BoolV("const", {x.s for x in recv.items} <= set(other.items))
+            if isinstance(other, (SetV, TupV)) and all(isinstance(x, StrV) for x in other.items):
+                return BoolV("const", {x.s for x in recv.items} <= {x.s for x in other.items})
+            return BoolV("opaque", _has_all_descr(self, other, recv))
         if isinstance(recv, SetV) and meth == "intersection":
             if len(args) == 1 and all(isinstance(x, StrV) for x in recv.items):
                 other = args[0]
@@ -1460,6 +1475,10 @@ _ARITH = {
     ast.Div: nf.div,
     ast.Pow: nf.power,
 }
+
+
+def _has_all_descr(it, table, need):
+    return "has_all(" + nf.show(it.to_nf(table), 120) + "; " + ", ".join(sorted(repr(i.s) for i in need.items)) + ")"
 
 
 def _len_compatible(a, b):
